@@ -480,7 +480,8 @@ func Decode(b []byte) (*Msg, Verdict, string) {
 	if len(text) == 0 {
 		return m, Accept, ""
 	}
-	it, used, why := decodeItem(text, 0)
+	deepest := 0
+	it, used, why := decodeItem(text, 1, &deepest)
 	if it == nil {
 		return nil, Reject, why
 	}
@@ -488,10 +489,17 @@ func Decode(b []byte) (*Msg, Verdict, string) {
 		return nil, Reject, "trailing bytes after the item"
 	}
 	m.Item = it
+	if deepest > NestingLimit {
+		// the decoder documents a nesting limit (it cannot recurse without bound); beyond it either answer is taken
+		return m, Either, "lists nested deeper than the decoder's documented limit"
+	}
 	return m, Accept, ""
 }
 
-func decodeItem(b []byte, depth int) (*Node, int, string) {
+// NestingLimit is the list nesting depth up to which a well-formed message must be accepted.
+const NestingLimit = 10000
+
+func decodeItem(b []byte, depth int, deepest *int) (*Node, int, string) {
 	if len(b) < 1 {
 		return nil, 0, "missing item"
 	}
@@ -512,12 +520,15 @@ func decodeItem(b []byte, depth int) (*Node, int, string) {
 	}
 	pos := 1 + nl
 	if k == L {
+		if depth > *deepest {
+			*deepest = depth
+		}
 		n := &Node{Kind: L, Children: []*Node{}}
 		if length > len(b)-pos { // every child needs at least 2 bytes; cheap early bound
 			return nil, 0, "list longer than input"
 		}
 		for i := 0; i < length; i++ {
-			c, used, why := decodeItem(b[pos:], depth+1)
+			c, used, why := decodeItem(b[pos:], depth+1, deepest)
 			if c == nil {
 				return nil, 0, why
 			}
